@@ -123,7 +123,7 @@ class SplineCalibrator(Calibrator):
             for p in element.iterfind('*')
         ]
         order = int(element.attrib['order']) if 'order' in element.attrib else 0
-        extrapolate = element.attrib['extrapolate'].lower() == 'true' if 'extrapolate' in element.attrib else False
+        extrapolate = common.xs_boolean(element.attrib['extrapolate']) if 'extrapolate' in element.attrib else False
         return cls(order=order, points=spline_points, extrapolate=extrapolate)
 
     def to_xml(self, *, elmaker: ElementMaker) -> ElementTree.Element:
